@@ -35,6 +35,7 @@ type Env struct {
 	next  *Env // back-edge values (for `next.x` in loop ghost updates)
 	cur   *State // the non-old state while translating inside old(...)
 	loopHead *ssa.BasicBlock // loop header for $i / $visited when `at` is not the header
+	atStart  bool            // evaluation point is the start of block `at` (loop head)
 }
 
 type transErr string
@@ -715,7 +716,7 @@ func (e *Env) call(x *ECall) TV {
 		case *types.Map:
 			_, _, ml := mapComps(c, u)
 			comp := c.comp(e.st, ml, "(Array Ref Int)")
-			c.lenAxioms(e.st, u)
+			c.lenAxioms(e.st, u, v.T)
 			return TV{T: "(ite (= " + v.T + " null) 0 " + sel(comp, v.T) + ")", Ty: types.Typ[types.Int]}
 		case *types.Array:
 			return TV{T: fmt.Sprint(u.Len()), Ty: types.Typ[types.Int]}
@@ -745,7 +746,11 @@ func (e *Env) call(x *ECall) TV {
 		return TV{T: sel(comp, m.T), SetElem: mt.Key()}
 	case "alive": // alive(ref): allocated
 		comp := c.comp(e.st, "alloc", "(Array Ref Bool)")
-		return TV{T: sel(comp, arg(0).T), Ty: B}
+		av := arg(0)
+		if c.sortOfTV(av) == "Slice" {
+			return TV{T: sel(comp, "(sref "+av.T+")"), Ty: B}
+		}
+		return TV{T: sel(comp, av.T), Ty: B}
 	case "typeIs": // typeIs(iface, T)
 		v := arg(0)
 		gt := e.exprType(x.Args[1])
